@@ -27,7 +27,8 @@
 From Coq Require Import List ZArith Bool Sorting.Sorted Sorting.Permutation.
 From ApiFu Require Import Base.Sexp Relay.CursorCodec Relay.CursorCodecProofs Relay.CursorCodecTotal
      Relay.RelayModel Relay.RelayModelF Relay.RelaySpec Relay.RelayProofs Relay.RelayInstance
-     Relay.RelaySerFailProofs Relay.RelayFirstLast.
+     Relay.RelaySerFailProofs Relay.RelayFirstLast Relay.RelayPromiseCompose.
+From ApiFu Require Fut.Plan Fut.ExecAsync Fut.FutSpec Fut.AsyncRun Fut.FutProofs.
 Import ListNotations.
 Open Scope Z_scope.
 
@@ -396,6 +397,35 @@ Theorem C09_cursor_order : (forall a, cursor_ltb a a = false) /\
   (forall a b, cursor_ltb a b = true \/ a = b \/ cursor_ltb b a = true).
 Proof. exact (conj cursor_ltb_irrefl (conj cursor_ltb_trans cursor_ltb_total)). Qed.
 
+(** ** Stage B: promises, composed with the executor model of C02 and the idle handler of C15.
+    RelayModel treats a promise as "will deliver a value or an error"; goroutines and the
+    IdleHandler are outside it.  What it needs from them — a resolver answering through a promise
+    yields under every schedule the response it would yield answering directly — is C02's theorem
+    about the executor model (Fut/ExecAsync.run) once the connection field is written as a C02 plan
+    ([plan_of_result]: the field is asynchronous iff the resolver returned a promise; on the lazy
+    zero-edge path also pageInfo / totalCount).  Two applications handing over the same edges, one
+    directly, one through promises: under ANY two fair idle handlers (C15_handler_record_is_fair_
+    scheduler: api-fu's handler is one) both runs finish, with the same data, both conforming. *)
+Theorem C09_promise_composes_with_executor :
+  forall (C E : Type) (ltb : C -> C -> bool) (cur : E -> C) (encode : C -> bytes) (decode : bytes -> option C)
+         (node : E -> Z) (k_edges k_page_info k_total k_cursor k_node k_prev k_next k_start k_end : bytes)
+         (a1 a2 : app C E) ar key md sigma1 sigma2 fuel1 fuel2 jfuel,
+    app_has_all a1 = app_has_all a2 -> app_total a1 = app_total a2 ->
+    (exists l, delivers E (app_all a1) l /\ delivers E (app_all a2) l) ->
+    (forall af bf limit, exists l, delivers E (app_edges a1 af bf limit) l /\ delivers E (app_edges a2 af bf limit) l) ->
+    let plan a := [(key, plan_of_result C E cur encode node k_edges k_page_info k_total k_cursor k_node k_prev k_next k_start k_end
+                           (fst (resolve C E ltb cur encode decode a ar)))] in
+    Fut.AsyncRun.fair sigma1 -> Fut.AsyncRun.fair sigma2 ->
+    (Fut.Plan.count_async (plan a1) <= fuel1)%nat -> (Fut.Plan.count_async (plan a2) <= fuel2)%nat ->
+    (Fut.FutProofs.resp_depth (plan a1) < jfuel)%nat ->
+    exists r1 r2,
+      Fut.ExecAsync.run Fut.ExecAsync.fixed_flags sigma1 md fuel1 jfuel (plan a1) = Fut.ExecAsync.Done r1 /\
+      Fut.ExecAsync.run Fut.ExecAsync.fixed_flags sigma2 md fuel2 jfuel (plan a2) = Fut.ExecAsync.Done r2 /\
+      Fut.ExecAsync.r_data r1 = Fut.ExecAsync.r_data r2 /\
+      Fut.FutSpec.conforms (plan a1) (Fut.ExecAsync.r_data r1) (Fut.ExecAsync.r_errors r1) /\
+      Fut.FutSpec.conforms (plan a1) (Fut.ExecAsync.r_data r2) (Fut.ExecAsync.r_errors r2).
+Proof. exact connection_promise_composes. Qed.
+
 Print Assumptions C09_relay_edges_eq.
 Print Assumptions C09_relay_literal_agrees.
 Print Assumptions C09_relay_sorted.
@@ -434,3 +464,4 @@ Print Assumptions C09_cursor_decode_input_bounded.
 Print Assumptions C09_cursor_roundtrip_f.
 Print Assumptions C09_cursor_ok_time.
 Print Assumptions C09_cursor_order.
+Print Assumptions C09_promise_composes_with_executor.
